@@ -79,18 +79,21 @@ Proof.
 Qed.
 
 (* ---------------------------------------------------------------- items and what they look like between the stages *)
-Definition sig_tags : string * string := (stag "__TAG_PASIG_BEGIN__", stag "__TAG_PASIG_END__").
 Definition item_tags (it : item16) : option (string * string) :=
-  match it with Text _ => None | Block k _ => Some (stage_tags k) | SigBlock _ => Some sig_tags end.
+  match it with Text _ => None | Block k _ _ _ => Some (stage_tags k) | SigBlock _ _ _ => Some sig_tags end.
 Definition item_body (it : item16) : list uline :=
-  match it with Text _ => [] | Block _ b => b | SigBlock b => b end.
-Definition item_word (it : item16) : string :=
-  match it with Text _ => EmptyString | Block k _ => block_word k | SigBlock _ => "PER_ACTION_SIGNATURE" end.
+  match it with Text _ => [] | Block _ _ _ b => b | SigBlock _ _ b => b end.
+Definition item_bl (it : item16) : string :=
+  match it with Text _ => EmptyString | Block k ib _ _ => (ib ++ begin_line (block_word k))%string
+              | SigBlock ib _ _ => (ib ++ begin_line "PER_ACTION_SIGNATURE")%string end.
+Definition item_el (it : item16) : string :=
+  match it with Text _ => EmptyString | Block k _ ie _ => (ie ++ end_line (block_word k))%string
+              | SigBlock _ ie _ => (ie ++ end_line "PER_ACTION_SIGNATURE")%string end.
 Definition item_inner (m : smodel) (it : item16) : list string -> option string -> option (list string) :=
   match it with
   | Text _ => fun _ _ => None
-  | Block k _ => inner_of_kind k (items_of (elements_of_model m) k)
-  | SigBlock _ => inner_actionsigs (sm_actionsigs m)
+  | Block k _ _ _ => inner_of_kind k (items_of (elements_of_model m) k)
+  | SigBlock _ _ _ => inner_actionsigs (sm_actionsigs m)
   end.
 
 Definition inb (y : string) (l : list string) : bool := existsb (String.eqb y) l.
@@ -103,7 +106,7 @@ Definition view (e : elements) (done : list string) (it : item16) : list string 
   end.
 
 Lemma render_block_shape it b e : item_tags it = Some (b, e) ->
-  render_item16 it = begin_line (item_word it) :: map render_line (item_body it) ++ [end_line (item_word it)].
+  render_item16 it = item_bl it :: map render_line (item_body it) ++ [item_el it].
 Proof. destruct it; cbn [item_tags]; intros H; try discriminate; reflexivity. Qed.
 
 (* the block theorems, per item *)
@@ -111,10 +114,10 @@ Lemma item_expands m it :
   item16_ok it = true -> item16_wf (elements_of_model m) it = true -> item_tags it <> None ->
   item_inner m it (map render_line (item_body it)) None = Some (ref_item16 (elements_of_model m) it).
 Proof.
-  destruct it as [l|k body|body]; cbn [item16_ok item16_wf item_tags item_inner item_body ref_item16]; intros Ho Hw Hn.
+  destruct it as [l|k ib ie body|ib ie body]; cbn [item16_ok item16_wf item_tags item_inner item_body ref_item16]; intros Ho Hw Hn.
   - contradiction.
-  - apply inner_block; assumption.
-  - cbn [elements_of_model el_sigs]. apply sig_block_is_ref; assumption.
+  - apply andb_prop in Ho as [_ Ho]. apply inner_block; assumption.
+  - apply andb_prop in Ho as [_ Ho]. cbn [elements_of_model el_sigs]. apply sig_block_is_ref; assumption.
 Qed.
 
 Lemma keys_same k name i : map fst (table_of_kind k name i) = keys_of k.
@@ -142,61 +145,36 @@ Qed.
 Lemma expanded_tagfree e it : item16_ok it = true -> item16_wf e it = true -> item_tags it <> None ->
   forallb tagfree (ref_item16 e it) = true.
 Proof.
-  destruct it as [l|k body|body]; cbn [item16_ok item16_wf item_tags ref_item16]; intros Ho Hw Hn; [contradiction| |].
-  - unfold ref_block, block_wf in *. apply (ref_block_tagfree (table_of_kind k) (keys_of k) (keys_same k) body Ho _ 0 Hw).
-  - unfold ref_block, block_wf in *. apply (ref_block_tagfree sig_table sig_keys sig_keys_same body Ho _ 0 Hw).
+  destruct it as [l|k ib ie body|ib ie body]; cbn [item16_ok item16_wf item_tags ref_item16]; intros Ho Hw Hn; [contradiction| |].
+  - apply andb_prop in Ho as [_ Ho]. unfold ref_block, block_wf in *. apply (ref_block_tagfree (table_of_kind k) (keys_of k) (keys_same k) body Ho _ 0 Hw).
+  - apply andb_prop in Ho as [_ Ho]. unfold ref_block, block_wf in *. apply (ref_block_tagfree sig_table sig_keys sig_keys_same body Ho _ 0 Hw).
 Qed.
 
 Lemma text_tagfree l : text_ok l = true -> tagfree (l ++ nl_str)%string = true /\ (count_char LF (l ++ nl_str)%string <=? 1)%nat = true.
 Proof.
   unfold text_ok. intros H. apply andb_prop in H as [H1 H2]. split.
-  - unfold tagfree. rewrite no_char_app, (no_lg_no_lt l H1). reflexivity.
+  - unfold tagfree. rewrite no_char_app. change (chr 60) with LT in H1. rewrite H1. reflexivity.
   - clear H1. induction l as [|c l IH]; [reflexivity|]. cbn [no_char] in H2. apply andb_prop in H2 as [Hc H2].
     apply negb_true_iff in Hc. cbn [append count_char]. rewrite Hc. cbn [Nat.add]. apply IH. exact H2.
 Qed.
 
-(* ---------------------------------------------------------------- the stage list, and facts about the constant lines *)
-Definition all_stages : list stage := second_stages ++ second_stages_iface.
-Definition all_kinds : list ekind := [KState; KEvent; KAction; KGuard; KStruct; KProto; KMsg].
-Definition words : list (string * (string * string)) :=
-  ("PER_ACTION_SIGNATURE", sig_tags) :: map (fun k => (block_word k, stage_tags k)) all_kinds.
-
-Definition own_stage (st : stage) (tags : string * string) : bool :=
-  let '(kind, b, e, _, _) := st in String.eqb kind "Pair" && String.eqb (fst tags) b.
-
-(* the begin / end line of a block is inert for every stage but its own, and loads unchanged *)
-Lemma const_lines_inert :
-  forallb (fun w => forallb (fun st => own_stage st (snd w)
-                                       || (stage_inert (begin_line (fst w)) st && stage_inert (end_line (fst w)) st)) all_stages
-                    && load_inert (begin_line (fst w)) && load_inert (end_line (fst w))) words = true.
-Proof. vm_compute. reflexivity. Qed.
-
-Lemma own_lines_facts :
-  forallb (fun w => let bl := begin_line (fst w) in let el := end_line (fst w) in
-                    hasSpecificTag bl (fst (snd w)) && negb (hasSpecificTag bl (snd (snd w))) && negb (hasDefault bl)
-                    && negb (hasSpecificTag el (fst (snd w))) && hasSpecificTag el (snd (snd w))) words = true.
-Proof. vm_compute. reflexivity. Qed.
-
-Lemma item_word_in it b e : item_tags it = Some (b, e) -> In (item_word it, (b, e)) words.
+(* ---------------------------------------------------------------- the begin / end lines of a block *)
+Lemma item_lines_ok it tags : item16_ok it = true -> item_tags it = Some tags ->
+  block_lines_ok tags (item_bl it) (item_el it) = true.
 Proof.
-  destruct it as [l|k body|body]; cbn [item_tags item_word]; intros H; inversion H; subst.
-  - right. unfold all_kinds. destruct k; cbn [map In]; tauto.
-  - left. reflexivity.
+  destruct it as [l|k ib ie body|ib ie body]; cbn [item16_ok item_tags item_bl item_el]; intros H T; inversion T; subst;
+    apply andb_prop in H as [H _]; exact H.
 Qed.
 
-Lemma const_facts w st : In w words -> In st all_stages -> own_stage st (snd w) = false ->
-  stage_inert (begin_line (fst w)) st = true /\ stage_inert (end_line (fst w)) st = true.
+Lemma const_facts tags bl el st : block_lines_ok tags bl el = true -> In st all_stages -> own_stage st tags = false ->
+  stage_inert bl st = true /\ stage_inert el st = true.
 Proof.
-  intros Hw Hst Ho. pose proof const_lines_inert as C. rewrite forallb_forall in C. specialize (C w Hw).
-  apply andb_prop in C as [C _]. apply andb_prop in C as [C _]. rewrite forallb_forall in C. specialize (C st Hst).
-  rewrite Ho in C. cbn [orb] in C. apply andb_prop in C. exact C.
+  unfold block_lines_ok. intros H Hst Ho. apply andb_prop in H as [H _]. apply andb_prop in H as [H _]. apply andb_prop in H as [_ C].
+  rewrite forallb_forall in C. specialize (C st Hst). rewrite Ho in C. cbn [orb] in C. apply andb_prop in C. exact C.
 Qed.
 
-Lemma const_load w : In w words -> load_inert (begin_line (fst w)) = true /\ load_inert (end_line (fst w)) = true.
-Proof.
-  intros Hw. pose proof const_lines_inert as C. rewrite forallb_forall in C. specialize (C w Hw).
-  apply andb_prop in C as [C C2]. apply andb_prop in C as [_ C1]. auto.
-Qed.
+Lemma const_load tags bl el : block_lines_ok tags bl el = true -> load_inert bl = true /\ load_inert el = true.
+Proof. unfold block_lines_ok. intros H. apply andb_prop in H as [H L2]. apply andb_prop in H as [_ L1]. auto. Qed.
 
 Lemma body_lines_inert keys st : In st all_stages -> forall body, forallb (body_line_ok keys) body = true ->
   forallb (fun s => stage_inert s st) (map render_line body) = true.
@@ -207,7 +185,7 @@ Proof.
 Qed.
 
 Lemma item_body_ok it : item16_ok it = true -> exists keys, forallb (body_line_ok keys) (item_body it) = true.
-Proof. destruct it as [l|k body|body]; cbn [item16_ok item_body]; intros H; [exists []; reflexivity|eauto|eauto]. Qed.
+Proof. destruct it as [l|k ib ie body|ib ie body]; cbn [item16_ok item_body]; intros H; [exists []; reflexivity| |]; apply andb_prop in H as [_ H]; eauto. Qed.
 
 Lemma forallb_impl {A} (f g : A -> bool) l : (forall x, f x = true -> g x = true) -> forallb f l = true -> forallb g l = true.
 Proof. intros H. induction l as [|x l IH]; [reflexivity|]. cbn [forallb]. intros K. apply andb_prop in K as [K1 K2]. rewrite (H x K1), (IH K2). reflexivity. Qed.
@@ -223,10 +201,9 @@ Proof.
     + apply (forallb_impl tagfree); [intros s Hs; apply tagfree_stage_inert; exact Hs|].
       apply expanded_tagfree; [assumption|assumption|rewrite T; discriminate].
     + destruct Hown as [Hown|Hown]; [|discriminate].
-      rewrite (render_block_shape it b e' T). destruct (const_facts _ st (item_word_in it b e' T) Hst Hown) as [Cb Ce].
-      cbn [fst] in Cb, Ce. cbn [forallb]. rewrite Cb. cbn [andb]. rewrite forallb_app'.
+      rewrite (render_block_shape it b e' T). destruct (const_facts _ _ _ st (item_lines_ok it _ Ho T) Hst Hown) as [Cb Ce]. cbn [forallb]. rewrite Cb. cbn [andb]. rewrite forallb_app'.
       destruct (item_body_ok it Ho) as (keys & Hk). rewrite (body_lines_inert keys st Hst _ Hk). cbn [forallb andb]. rewrite Ce. reflexivity.
-  - destruct it as [l|k body|body]; cbn [item_tags] in T; try discriminate. cbn [render_item16 forallb item16_ok] in *.
+  - destruct it as [l|k ib ie body|ib ie body]; cbn [item_tags] in T; try discriminate. cbn [render_item16 forallb item16_ok] in *.
     destruct (text_tagfree l Ho) as [Tf _]. rewrite (tagfree_stage_inert _ st Tf). reflexivity.
 Qed.
 
@@ -280,15 +257,12 @@ Section Steps.
         + apply String.eqb_eq in Eb. subst b'. destruct (Hown it (b, e') Hit T (String.eqb_refl b)) as [Ee Hf]. cbn [snd] in Ee. subst e'.
           unfold view at 1 3. rewrite T, Hnd. unfold inb at 1. cbn [existsb]. rewrite String.eqb_refl. cbn [orb].
           rewrite (render_block_shape it b et T).
-          assert (W : In (item_word it, (b, et)) words) by (apply item_word_in; exact T).
-          pose proof own_lines_facts as C. rewrite forallb_forall in C. specialize (C _ W). cbn [fst snd] in C.
-          apply andb_prop in C as [C C0]. apply andb_prop in C as [C C1]. apply andb_prop in C as [C C2]. apply andb_prop in C as [C C3].
-          apply negb_true_iff in C3, C2, C1.
+          destruct (block_lines_facts _ _ _ (item_lines_ok it _ Ho T)) as (C & C3 & C2 & C1 & C0). cbn [fst snd] in C, C3, C2, C1, C0.
           destruct (item_body_ok it Ho) as (keys & Hk).
           assert (Hnb : forallb (not_be b et) (map render_line (item_body it)) = true).
           { apply (forallb_impl (fun s => stage_inert s st)); [|exact (body_lines_inert keys st Hst _ Hk)]. intros s Hs. exact Hs. }
           cbn [app]. rewrite <- app_assoc. cbn [app].
-          pose proof (pair_block b et f [] (begin_line (item_word it)) (map render_line (item_body it)) (end_line (item_word it))
+          pose proof (pair_block b et f [] (item_bl it) (map render_line (item_body it)) (item_el it)
                                  (flat_map (view e done) t') eq_refl Hnb C C3 C2 C1 C0) as PB.
           cbn [app] in PB. rewrite PB, Hf.
           rewrite (item_expands m it Ho Hw) by (rewrite T; discriminate). rewrite IH'. reflexivity.
@@ -322,7 +296,7 @@ Proof.
   repeat (destruct H as [H|H]; [subst st;
     first [ left; split; reflexivity
           | right; do 5 eexists; split; [reflexivity|]; split; [reflexivity|];
-            intros it tags T E; destruct it as [l|k body|body]; cbn [item_tags] in T; [discriminate| |];
+            intros it tags T E; destruct it as [l|k ib ie body|ib ie body]; cbn [item_tags] in T; [discriminate| |];
             inversion T; subst tags; clear T; [destruct k|]; cbn [fst snd stage_tags sig_tags] in *;
             first [ split; [reflexivity|intros x; reflexivity] | vm_compute in E; discriminate E ] ] |]).
   contradiction.
@@ -367,7 +341,7 @@ Section Compose.
 
   Lemma all_done it tags : item_tags it = Some tags -> inb (fst tags) done_final = true.
   Proof.
-    destruct it as [l|k body|body]; cbn [item_tags]; intros T; inversion T; subst; [destruct k|]; vm_compute; reflexivity.
+    destruct it as [l|k ib ie body|ib ie body]; cbn [item_tags]; intros T; inversion T; subst; [destruct k|]; vm_compute; reflexivity.
   Qed.
 
   Lemma view_final : flat_map (view e done_final) t = flat_map (ref_item16 e) t.
@@ -423,12 +397,12 @@ Section Whole.
     pose proof grammar_items as Ho. unfold render16. clear Hg Hw. induction t as [|it t' IH]; [reflexivity|].
     cbn [forallb] in Ho. apply andb_prop in Ho as [Hi Ho]. cbn [flat_map]. rewrite forallb_app', (IH Ho), andb_true_r.
     destruct (item_tags it) as [[b et]|] eqn:T.
-    - rewrite (render_block_shape it b et T). destruct (const_load _ (item_word_in it b et T)) as [Lb Le]. cbn [fst] in Lb, Le.
+    - rewrite (render_block_shape it b et T). destruct (const_load _ _ _ (item_lines_ok it _ Hi T)) as [Lb Le].
       cbn [forallb]. rewrite Lb. cbn [andb]. rewrite forallb_app'. cbn [forallb]. rewrite Le, !andb_true_r.
       destruct (item_body_ok it Hi) as (keys & Hk). clear -Hk. induction (item_body it) as [|l body IHb]; [reflexivity|].
       cbn [forallb map] in *. apply andb_prop in Hk as [H1 H2]. rewrite (IHb H2), andb_true_r.
       unfold body_line_ok in H1. repeat (apply andb_prop in H1 as [H1 ?K]). exact K0.
-    - destruct it as [l|k body|body]; cbn [item_tags] in T; try discriminate. cbn [render_item16 forallb item16_ok] in *.
+    - destruct it as [l|k ib ie body|ib ie body]; cbn [item_tags] in T; try discriminate. cbn [render_item16 forallb item16_ok] in *.
       destruct (text_tagfree l Hi) as [Tf Tc]. rewrite (tagfree_load_inert _ Tf Tc). reflexivity.
   Qed.
 
@@ -439,7 +413,7 @@ Section Whole.
     cbn [flat_map]. rewrite forallb_app', (IH Ho Hw'), andb_true_r.
     destruct (item_tags it) as [tags|] eqn:T.
     - apply expanded_tagfree; [assumption|assumption|rewrite T; discriminate].
-    - destruct it as [l|k body|body]; cbn [item_tags] in T; try discriminate. cbn [ref_item16 forallb item16_ok] in *.
+    - destruct it as [l|k ib ie body|ib ie body]; cbn [item_tags] in T; try discriminate. cbn [ref_item16 forallb item16_ok] in *.
       destruct (text_tagfree l Hi) as [Tf _]. rewrite Tf. reflexivity.
   Qed.
 
